@@ -59,6 +59,11 @@ CHECKS = {
   text="Generated-input search over projects with validator-rich types and parameters: both documents are produced from the same analysis result and compared by an independent reader (no kin-openapi/libopenapi) after translating the dialect differences listed in internal/oas/diff.go; every structural difference is reported with a JSON pointer and a class (the class is the known-finding signature). Sampling.",
   note="Trusts: rapid; the dialect table (exclusive bounds, false/empty vs absent, enum members by value, nullable); descriptions/titles are outside the statement and not compared; rule pairs writing the same keyword are excluded by construction (F-C11-2).",
   ref="6/C11"),
+ "C08": dict(
+  technique="property-based testing with rapid: generated projects (incl. rejected ones) -> every emitted document checked by an independent OpenAPI validity/closure predicate; real CLI for the no-file-on-failure clause",
+  text="Generated-input search over projects aimed at closure (prefix parameters, pointer path parameters, duplicate wire names, types reachable through maps/slices/pointers, varied and undeclared security schemes). Every document gleece emits (both versions in-process, the configured one through the real CLI) is checked by internal/oas (plain encoding/json): $ref resolution, template/path-parameter bijection, unique (name,in), response descriptions, enum member types, unique operationIds, and info/servers/securitySchemes against the configuration; a failing `generate spec` must leave no file. Sampling.",
+  note="Trusts: rapid; the validity predicate in internal/oas/oas.go (it is the statement's list, not a full OpenAPI validator); in-process bytes are cross-checked against the CLI's file on every accepted case.",
+  ref="6/C08"),
 }
 
 NOT_APPLICABLE = []
